@@ -460,6 +460,13 @@ def r06_11(ctx: Ctx):
         scratch |= set(caches.lazy_caches(ctx, e.cls))
     except AnalysisError:
         pass
+    # attributes the queries themselves (re)write are working storage (scratch arrays, size-keyed work buffers):
+    # their discipline is C17's subject (R17.3 / R17.4), not configuration
+    qs = [e.cls.methods[n_] for n_ in ('GetImage', 'GetInverseImage', 'GetPreimages') if n_ in e.cls.methods]
+    qreach = ctx.pta.reachable(qs)
+    scratch |= {m.field for m in roles.mutations() if not m.init_self and m.kind in ('attr', 'aug') and
+                isinstance(m.field, str) and roles.fq(m.func) in qreach and
+                any(o.cls is not None and o.cls.is_subclass_of(e.cls) for o in m.bases)}
     config = {m.field for m in roles.mutations() if m.init_self and m.func is init and isinstance(m.field, str)} - scratch
     n_w = 0
     for m in roles.mutations():
